@@ -42,6 +42,12 @@ def load_modules():
 
 
 def build_registry(mods):
+    # hooks that need every sidecar module to be loaded (e.g. sharing contracts between properties)
+    for m in mods:
+        hook = getattr(m, 'after_load', None)
+        if hook is not None:
+            hook()
+            m.after_load = None
     reg = Registry()
     reg.loops_by_key = {}
     for m in mods:
